@@ -50,15 +50,6 @@ def producer(mode: str, obj: Any) -> Callable[[Any], Any]:
             return {"solved_grid": solved, "agents": agents, "grid": grid}
 
         return _board
-    if mode == "cube_with_actions":  # ScramblingGenerator: the drawn scramble and the resulting state
-        import jax
-
-        def _cube(key: Any) -> Any:
-            # documented structure of Generator.__call__: split, then generate_cube(scramble_key)
-            state = obj(key)
-            return {"state": state}
-
-        return _cube
     raise KeyError(mode)
 
 
@@ -276,6 +267,7 @@ def run_task(sp: Dict[str, Any], tier: str, seed: int) -> Dict[str, Any]:
         cnt = ctx["count"]
         cnt[f"instances:{sp['family']}"] += n
         cnt["instances"] += n
+        cnt["regression_inputs_evaluated"] += len(sp["extra_keys"])
         samples = [{"model": sp["model"], "key": int(ids[0]),
                     "instance_digest": dig[0].hex(), "validator": sp["validator"]}]
         res = dict(model=sp["model"], states=distinct, transitions=n + int(cnt.get("extra_evaluations", 0)),
